@@ -19,6 +19,7 @@ CMP = {ast.Lt: "<", ast.LtE: "<=", ast.Gt: ">", ast.GtE: ">=", ast.Eq: "==", ast
 CMP_SWAP = {"<": ["<="], "<=": ["<"], ">": [">="], ">=": [">"], "==": ["!="], "!=": ["=="]}
 BIN = {ast.Add: "+", ast.Sub: "-"}
 BIN_SWAP = {"+": "-", "-": "+"}
+TABLES = "--tables" in sys.argv
 
 
 PRIORITY = {"instrument.py": ["C02", "C03", "C04", "C05", "C07", "C16", "C13", "C19", "C18"],
@@ -57,6 +58,16 @@ def mutants_of(path):
         out.append({"line": line, "what": what, "before": lines[line - 1].strip(), "after": l2[line - 1].strip(), "text": "\n".join(l2)})
 
     in_doc = set()
+    # constants that sit directly in a class-level assignment (enum member tables: lane tuples, index values) - a slip there is a different
+    # member, which the suite's enum tests and every check's first chart see at once; they are swept only with --tables
+    if not TABLES:
+        for node in ast.walk(tree):
+            if isinstance(node, ast.ClassDef):
+                for st in node.body:
+                    if isinstance(st, (ast.Assign, ast.AnnAssign)) and st.value is not None:
+                        for c in ast.walk(st.value):
+                            if isinstance(c, ast.Constant):
+                                in_doc.add(id(c))
     for node in ast.walk(tree):
         if isinstance(node, (ast.FunctionDef, ast.ClassDef, ast.Module, ast.AsyncFunctionDef)) and node.body and isinstance(node.body[0], ast.Expr) \
                 and isinstance(getattr(node.body[0], "value", None), ast.Constant) and isinstance(node.body[0].value.value, str):
@@ -155,7 +166,7 @@ def run_one(job):
 
 def main():
     ap = argparse.ArgumentParser()
-    ap.add_argument("--files"); ap.add_argument("--jobs", type=int, default=4); ap.add_argument("--limit", type=int)
+    ap.add_argument("--files"); ap.add_argument("--jobs", type=int, default=4); ap.add_argument("--limit", type=int); ap.add_argument("--tables", action="store_true")
     ap.add_argument("--out", default=os.path.join(V, "selftest", "mutsweep.json")); ap.add_argument("--only-survivors")
     a = ap.parse_args()
     files = a.files.split(",") if a.files else sorted(f for f in os.listdir(os.path.join(REPO, "chartparse")) if f.endswith(".py") and f != "__init__.py")
